@@ -7,12 +7,15 @@ structure St where
   heaps : List Nat             -- existing first-class heaps (ids ≥ 1); the backing heap 0 always exists
   owner : List (Nat × Nat)     -- live block id ↦ heap id
   dflt : Nat                   -- the heap that serves mi_malloc
+  nod : List Nat := []         -- heaps created without allow_destroy (mi_heap_new_ex(.., false, ..), mi_heap_new_in_arena): they may hold
+                               -- pages reclaimed from other threads, so mi_heap_destroy falls back to mi_heap_delete for them
 deriving Repr, DecidableEq
 
-def init : St := { heaps := [], owner := [], dflt := 0 }
+def init : St := { heaps := [], owner := [], dflt := 0, nod := [] }
 
 inductive Op where
   | new (h : Nat)
+  | newNoDestroy (h : Nat)
   | alloc (h : Nat) (b : Nat)          -- allocate block `b` from heap `h`
   | allocDefault (b : Nat)             -- mi_malloc
   | free (b : Nat)
@@ -23,18 +26,22 @@ deriving Repr
 
 def exists_ (s : St) (h : Nat) : Bool := h == 0 || s.heaps.contains h
 
+def deleteHeap (s : St) (h : Nat) : St :=
+  { heaps := s.heaps.filter (· != h), owner := s.owner.map (fun p => if p.2 == h then (p.1, 0) else p), dflt := if s.dflt == h then 0 else s.dflt,
+    nod := s.nod.filter (· != h) }
+
 def step (s : St) : Op → St
   | .new h => if exists_ s h then s else { s with heaps := h :: s.heaps }
+  | .newNoDestroy h => if exists_ s h then s else { s with heaps := h :: s.heaps, nod := h :: s.nod }
   | .alloc h b => if exists_ s h && !(s.owner.any (·.1 == b)) then { s with owner := (b, h) :: s.owner } else s
   | .allocDefault b => if !(s.owner.any (·.1 == b)) then { s with owner := (b, s.dflt) :: s.owner } else s
   | .free b => { s with owner := s.owner.filter (·.1 != b) }
   | .delete h =>
-    if h != 0 && s.heaps.contains h then
-      { heaps := s.heaps.filter (· != h), owner := s.owner.map (fun p => if p.2 == h then (p.1, 0) else p), dflt := if s.dflt == h then 0 else s.dflt }
-    else s
+    if h != 0 && s.heaps.contains h then deleteHeap s h else s
   | .destroy h =>
     if h != 0 && s.heaps.contains h then
-      { heaps := s.heaps.filter (· != h), owner := s.owner.filter (·.2 != h), dflt := if s.dflt == h then 0 else s.dflt }
+      if s.nod.contains h then deleteHeap s h            -- not created with allow_destroy: behaves as mi_heap_delete
+      else { heaps := s.heaps.filter (· != h), owner := s.owner.filter (·.2 != h), dflt := if s.dflt == h then 0 else s.dflt, nod := s.nod }
     else s
   | .setDefault h => if exists_ s h then { s with dflt := h } else s
 
